@@ -10,7 +10,8 @@ RULE = ("import graphs as real files in a scratch directory: every graph over 3 
         "file, a path without the .pakhi extension, a self import, a multi-piece path. Every file prints a line before and "
         "after its imports. Oracle (graph predicate, computed in Python): if a cycle is reachable from the root the run ends "
         "with an error and prints nothing at all; otherwise it ends normally and the output is the depth-first expansion in "
-        "source order. Also compared with the Lean model. Non-trivial: the graph has a diamond, a repeated import or a cycle.")
+        "source order. Also compared with the Lean model. Non-trivial: the graph has a diamond, a repeated import or a cycle."
+        ' The root file is on disk (cycles through the root are real); the 512 three-file graphs also started with a relative root path and over six name sets (upper-case, case-colliding, Bangla, same-normal-form, accented).')
 ASSUMPTIONS = ["module paths are relative paths, clean or spelled with `./`, `/./`, `//` (no `..`); the harness uses an absolute root directory"]
 default_compare = lambda m, i: C.compare_run(m, i)
 PATHS = ["main.pakhi", "b.pakhi", "sub/c.pakhi", "sub/deep/d.pakhi", "e.pakhi", "sub/f.pakhi", "g.pakhi", "sub/deep/h.pakhi", "i.pakhi", "sub/j.pakhi"]
@@ -51,7 +52,8 @@ def spell(path, k):
     return path
 
 
-def graph_case(name, n, edges, descending, root_ph="@ROOT@", extra=None, spelling=None):
+def graph_case(name, n, edges, descending, root_ph="@ROOT@", extra=None, spelling=None, paths=None, rel=False):
+    PATHS = paths or globals()["PATHS"]
     adj = {u: sorted([v for (a, v) in edges if a == u], reverse=descending) for u in range(n)}
     lines = ["RESET"]
     srcs = {}
@@ -62,9 +64,9 @@ def graph_case(name, n, edges, descending, root_ph="@ROOT@", extra=None, spellin
             body += f'মডিউল ম{G.bn_digits(str(k))} = "{pth}";\n'
         body += f'দেখাও "f{u}-শেষ";\n'
         srcs[u] = body
-        if u > 0:
-            lines.append("FILE " + C.hx(f"{root_ph}/{PATHS[u]}") + " " + C.hx(body))
-    lines.append(run_req(srcs[0]))
+        # the root file is on disk too (an import of it by name loads it: cycles through the root are real cycles)
+        lines.append("FILE " + C.hx(f"{root_ph}/{PATHS[u]}") + " " + C.hx(body))
+    lines.append(run_req(srcs[0], rel=1) if rel else run_req(srcs[0]))
     cyc = has_cycle_from(adj, 0)
     exp = None
     if not cyc:
@@ -121,12 +123,32 @@ def cases(rng, tier, stats):
         edges = [e for k, e in enumerate(e3) if mask >> k & 1]
         for desc in (False, True):
             out.append(graph_case("graphs-3-exhaustive", 3, edges, desc)); n += 1
+    # the same 512 graphs with the interpreter started as `pakhi main.pakhi` from inside the directory (relative root path: the
+    # root file is then known under the very text an import of it is written with)
+    for mask in range(1 << 9):
+        if tier != "thorough" and mask % 2 == 0 and not (mask & 1):
+            continue
+        edges = [e for k, e in enumerate(e3) if mask >> k & 1]
+        out.append(graph_case("graphs-3-relative-start", 3, edges, bool((mask >> 4) & 1), rel=True)); n += 1
     # the same 512 graphs with the import paths written in other spellings (`./x`, `a/./x`, `a//x`): the file a path
     # text denotes decides, cycles through differently spelled edges are cycles
     for mask in range(1 << 9):
         edges = [e for k, e in enumerate(e3) if mask >> k & 1]
         for variant in ((0, 1) if tier == "thorough" else (mask & 1,)):
             out.append(graph_case("graphs-3-spelled", 3, edges, bool(variant), spelling=lambda u, v, m=mask, w=variant: (u * 3 + v + m + w) % 4)); n += 1
+    # the same 512 graphs over files whose names differ from each other only in letter case, carry upper-case letters, or are
+    # written outside ASCII: a module is the file its path text denotes, byte for byte (no case folding, no normalisation)
+    name_sets = [["main.pakhi", "Ganit.pakhi", "Sub/Talika.pakhi"], ["main.pakhi", "Lib.pakhi", "lib.pakhi"], ["main.pakhi", "sub/X.pakhi", "Sub/x.pakhi"],
+                 ["main.pakhi", "\u0997\u09a3\u09bf\u09a4.pakhi", "\u09a4\u09be\u09b2\u09bf\u0995\u09be/\u0997\u09a3\u09bf\u09a4.pakhi"],
+                 ["main.pakhi", "\u0986\u09df.pakhi", "\u0986\u09af\u09bc.pakhi"], ["main.pakhi", "\u00c9.pakhi", "\u00e9.pakhi"]]
+    nc = 0
+    for si, names in enumerate(name_sets):
+        for mask in range(1 << 9):
+            if tier != "thorough" and (mask + si) % 3 != 0:
+                continue
+            edges = [e for k, e in enumerate(e3) if mask >> k & 1]
+            out.append(graph_case("graphs-3-cased-names", 3, edges, bool((mask >> 3) & 1), paths=names)); n += 1; nc += 1
+    stats["cased_name_graphs"] = nc
     e4 = [(a, b) for a in range(4) for b in range(4)]
     if tier == "thorough":
         masks = range(1 << 16)
